@@ -15,6 +15,7 @@
 import Hx.Obs
 import Hx.Spec.Chk
 import Hx.Lemmas.NoUB
+import Hx.Props.C12
 namespace Hx
 
 theorem c01_request (be : Backend) (hbe : be.Exact) (cfg : Config) (cap : Nat) (buf : List Byte)
@@ -55,6 +56,20 @@ theorem c01_chk_response (be : Backend) (hbe : be.Exact) (cfg : Config) (cap : N
 theorem c01_chk_headers (be : Backend) (hbe : be.Exact) (cap : Nat) (buf : List Byte) :
     chkC01 (hdrsObs be cap buf) = true :=
   chkC01_hdrsObs be hbe cap buf
+
+/-- C01 for every concrete backend (C12 discharges exactness): SWAR, SSE4.2, AVX2, NEON (generated
+model), runtime dispatch with any cached feature value -/
+theorem c01_request_concrete {b : Backend} (hb : ConcreteBackend b) (cfg : Config) (cap : Nat) (buf : List Byte)
+    (v : ReqVal) (u : UB) : (reqCore b cfg cap buf v).status ≠ .ub u :=
+  c01_request b (c12_concrete_exact hb) cfg cap buf v u
+
+theorem c01_response_concrete {b : Backend} (hb : ConcreteBackend b) (cfg : Config) (cap : Nat) (buf : List Byte)
+    (v : RespVal) (u : UB) : (respCore b cfg cap buf v).status ≠ .ub u :=
+  c01_response b (c12_concrete_exact hb) cfg cap buf v u
+
+theorem c01_headers_concrete {b : Backend} (hb : ConcreteBackend b) (cap : Nat) (buf : List Byte) (u : UB) :
+    (parseHeaders b cap buf).1 ≠ .ub u :=
+  c01_headers b (c12_concrete_exact hb) cap buf u
 
 /-- non-vacuity: the reference backend is exact, and the model really runs to Complete on a
 concrete request through every stage -/
